@@ -44,6 +44,12 @@ CHECKS["C03"] = (
     "Publicity rule as read from the C04 statement; which legitimate location is chosen is not prescribed. Trees larger than the bound are not covered.",
     "6/C03",
 )
+CHECKS["C04"] = (
+    E1,
+    TREES + " Oracle: no ground-truth private declaration (by name, by owner, by module or package path, not publicly re-exported) has a stub declaration; no stub declaration carries a private Python name; is_public of every class/function/attribute entry of the API JSON equals the ground truth. Exhaustive within the bound.",
+    "Publicity rule as read from the statement; re-exports by the __init__ of a private package are a don't-care zone (the statement's exception does not say whether they count).",
+    "6/C04",
+)
 NOT_YET = {}  # id -> reason (filled for properties without a check)
 
 props = [json.loads(l) for l in open(V / "properties.jsonl")]
